@@ -105,7 +105,8 @@ RETENTIONS = [None, None, '0s', '30s', '30s', '1000s']
 
 
 # 't1' is registered under /traits; 't2' is NOT: the loader assigns its code when a server reporting it is loaded
-SRV_TRAITS = [[], [], [], ['t1'], ['t2'], ['t1', 't2']]
+# ('t3' is not registered either: a record may introduce two new traits at once)
+SRV_TRAITS = [[], [], [], ['t1'], ['t2'], ['t1', 't2'], ['t2', 't3'], ['t3'], ['t3', 't2']]
 
 
 def _srv_spec(rng, racks, parts, resized=False):
@@ -117,10 +118,12 @@ def _srv_spec(rng, racks, parts, resized=False):
 def _allocs(rng, parts):
     out = []
     for i, part in enumerate(parts):
+        if rng.random() < 0.3:
+            part = rng.choice(parts)        # a reload may find the allocation of this name in another partition
         part = part or '_default'
         out.append({'name': 't%d/a' % i, 'partition': part, 'rank': rng.choice([100, 100, 50]),
                     'memory': rng.choice(['0G', '4G']), 'cpu': '100%', 'disk': '4G',
-                    'traits': rng.choice([[], [], [], ['t1'], ['t2']]),
+                    'traits': rng.choice([[], [], [], ['t1'], ['t2'], ['t3']]),
                     'assignments': [{'pattern': 'p%d.*' % (i + 1), 'priority': rng.choice([1, 10, 50])}]})
     return out
 
@@ -159,8 +162,15 @@ def gen_case(rng, pid, tier):
         if rng.random() < 0.12:
             man['schedule_once'] = True
         if rng.random() < 0.18:
-            man['traits'] = rng.choice([['t1'], ['t2'], ['t2']])
+            man['traits'] = rng.choice([['t1'], ['t2'], ['t2'], ['t3']])
         return ['app', napps[0], p, k, man]
+
+    # one server of the case gets most of the server-level events, so that multi-step histories of ONE server
+    # (down, changed record, up, down again; freeze, bounce, reload ...) are common rather than accidental
+    focus = rng.randint(1, nsrv)
+
+    def pick_srv():
+        return focus if rng.random() < 0.55 else rng.randint(1, nsrv)
 
     long_ = pid != 'C10'
     steps = rng.randint(20, 60) if long_ else rng.randint(8, 22)
@@ -177,9 +187,9 @@ def gen_case(rng, pid, tier):
         elif r < 0.40:
             ops.append(['finish', rng.randint(1, napps[0])])
         elif r < 0.54:
-            ops.append(['presence', rng.randint(1, nsrv), rng.random() < 0.5])
+            ops.append(['presence', pick_srv(), rng.random() < 0.5])
         elif r < 0.63:
-            s = rng.randint(1, nsrv)
+            s = pick_srv()
             x = rng.random()
             if x < 0.20:
                 ops.append(['server', s, None, rng.random() < 0.8])
@@ -205,7 +215,7 @@ def gen_case(rng, pid, tier):
         elif r < 0.72:
             ops.append(['idg', 1, rng.choice([0, 1, 2, 3, 4, None])])
         elif r < 0.78:
-            ops.append(['sstate', rng.randint(1, nsrv), rng.choice(['up', 'down', 'frozen', 'frozen']),
+            ops.append(['sstate', pick_srv(), rng.choice(['up', 'down', 'frozen', 'frozen']),
                         rng.randint(0, 2)])
         elif r < 0.81:
             # overlapping entries too: removing one of them must leave the instance blacklisted by the other
@@ -1229,6 +1239,46 @@ class _SchedView(object):
         # blacklisted according to the stored list (every change of it is followed by its event in this engine)
         self.blacklist_spec = lambda name, pats=tuple(pats or ()): any(
             fnmatch.fnmatch(name.split('#')[0], p) for p in pats)
+        store = w.store
+
+        def trait_names(appname, servername):
+            """(trait names the instance's manifest asks for, trait names the server record offers), straight
+            from the stored records - how the loader encodes them is part of what is checked."""
+            man = store.nodes.get('/scheduled/' + appname)
+            srec = store.nodes.get('/servers/' + servername)
+            try:
+                own = set((json.loads(man.data.decode()) if man is not None and man.data else {}).get('traits', []))
+                off = set((json.loads(srec.data.decode()) if srec is not None and srec.data else {}).get('traits', []))
+            except ValueError:
+                return None
+            if man is None or srec is None:
+                return None
+            return own, off
+        self.trait_names = trait_names
+
+        def partition_names(appname, servername):
+            """(partition the stored /allocations assign the instance to, partition of the stored server record)."""
+            arec = store.nodes.get('/allocations')
+            srec = store.nodes.get('/servers/' + servername)
+            if srec is None or not srec.data:
+                return None
+            try:
+                allocs = json.loads(arec.data.decode()) if arec is not None and arec.data else []
+                sdata = json.loads(srec.data.decode())
+            except ValueError:
+                return None
+            if not isinstance(sdata, dict):
+                return None
+            base = appname.split('#')[0]
+            want = '_default'
+            hits_ = [a_ for a_ in (allocs or []) for asg in a_.get('assignments', [])
+                     if fnmatch.fnmatch(base, asg.get('pattern', '')) or fnmatch.fnmatch(appname, asg.get('pattern', ''))]
+            if len(hits_) > 1:
+                return None                     # ambiguous in the generator's own terms: not judged
+            if hits_:
+                want = hits_[0].get('partition') or '_default'
+            return want, (sdata.get('partition') or '_default')
+        self.partition_names = partition_names
 
 
 def _cycle(w, pid, dt=2):
